@@ -15,7 +15,8 @@
 (* CacheBeforeValidate = TRUE is the code before the F8 fix.                  *)
 EXTENDS Integers, Sequences, FiniteSets, TLC, Json
 
-CONSTANTS Stored,               \* "D", "A" (another key of the same type) or "O" (a key of the other SSH type)
+CONSTANTS Stored,               \* "D", "A" (another key of the same type), "O" (a key of the other SSH type) or "G" (the
+                                \* declared key's point negated: another key with the same Curve25519 coordinate)
           Files,                \* set of files (sequences over {"D","A","U","X","T","N","Y"})
           MaxCalls,
           CacheBeforeValidate   \* deviation switch
